@@ -65,4 +65,38 @@ RECURSIVE RunScript(_, _, _, _)
 RunScript(pos, L, script, i) ==
   IF i > Len(script) THEN <<>>
   ELSE LET r == Step(pos, L, script[i]) IN <<r>> \o RunScript(r.pos, L, script, i + 1)
+
+(***************************************************************************)
+(* The file catalog of an (untracked) bucket.  files: the file records in  *)
+(* upload order [id, name, len]; upload dates are distinct, so a revision  *)
+(* of a name is a position among the files of that name: 0, 1, 2 ... from  *)
+(* the oldest, -1, -2 ... from the newest.  Chunks exist exactly for the   *)
+(* files of the catalog: ceil(len / C) of them per file.                   *)
+(***************************************************************************)
+NotFound == [id |-> 0, name |-> "", len |-> 0]
+WithName(files, name) == SelectSeq(files, LAMBDA f : f.name = name)
+ByName(files, name, rev) ==
+  LET same == WithName(files, name) IN
+  IF rev >= 0 THEN (IF rev < Len(same) THEN same[rev + 1] ELSE NotFound)
+  ELSE IF -rev <= Len(same) THEN same[Len(same) + rev + 1] ELSE NotFound
+ById(files, id) == LET hit == SelectSeq(files, LAMBDA f : f.id = id) IN IF hit = <<>> THEN NotFound ELSE hit[1]
+NChunks(len, C) == (len + C - 1) \div C
+ChunkOwners(files, C) == {<<files[i].id, NChunks(files[i].len, C)>> : i \in {j \in 1..Len(files) : files[j].len > 0}}
+
+CatRes(err, id, len, files) == [err |-> err, id |-> id, len |-> len, files |-> files]
+CatStep(files, op, a, C) ==
+  CASE op = "upload" ->
+         IF ById(files, a.id) # NotFound THEN CatRes(TRUE, 0, -1, files)
+         ELSE CatRes(FALSE, 0, -1, Append(files, [id |-> a.id, name |-> a.name, len |-> a.len]))
+    [] op = "byname" -> LET f == ByName(files, a.name, a.rev) IN
+         IF f = NotFound THEN CatRes(TRUE, 0, -1, files) ELSE CatRes(FALSE, f.id, f.len, files)
+    [] op = "byid" -> LET f == ById(files, a.id) IN
+         IF f = NotFound THEN CatRes(TRUE, 0, -1, files) ELSE CatRes(FALSE, f.id, f.len, files)
+    [] op = "rename" ->
+         IF ById(files, a.id) = NotFound THEN CatRes(TRUE, 0, -1, files)
+         ELSE CatRes(FALSE, 0, -1, [i \in 1..Len(files) |-> IF files[i].id = a.id THEN [files[i] EXCEPT !.name = a.name] ELSE files[i]])
+    [] op = "delete" ->
+         IF ById(files, a.id) = NotFound THEN CatRes(TRUE, 0, -1, files)
+         ELSE CatRes(FALSE, 0, -1, SelectSeq(files, LAMBDA f : f.id # a.id))
+    [] op = "drop" -> CatRes(FALSE, 0, -1, <<>>)
 =============================================================================
